@@ -165,7 +165,7 @@ def run_rigid_body(spec, ctx, ct, log):
     Bs = [None, np.zeros(3), rng.normal(size=3), rng.normal(size=3)]
     xis = ["omit", None, 0.3]
     OPS = ["A_IB", "A_IB_q", "r_OP", "r_OP_q", "v_P", "v_P_q", "a_P", "a_P_q", "a_P_u", "J_P", "J_P_q", "kappa_P", "kappa_P_q", "kappa_P_u"]
-    STATE_OPS = ["step_callback", "reassemble", "set_new_initial_state"]
+    STATE_OPS = ["step_callback", "reassemble", "set_new_initial_state", "inplace_update", "inplace_update"]
     MEMOISED = ("A_IB", "A_IB_q", "r_OP", "v_P", "J_P")
     for _ in range(spec["nops"]):
         if rng.random() < 0.08:
@@ -182,6 +182,11 @@ def run_rigid_body(spec, ctx, ct, log):
                 elif op == "reassemble":
                     S.assemble(options=gen.no_cic_options())
                     ctx.mon("STATE:reassemble")
+                elif op == "inplace_update":
+                    # a long-lived state array gets new contents (q[:] = ...): the SAME array object, other coordinates
+                    q[:] = gen.rigid_body_state(rng, unit=bool(rng.random() < 0.5))[0]
+                    u[:] = rng.normal(size=6)
+                    ctx.mon("STATE:inplace_update")
                 else:
                     qq = q.copy()
                     qq[3:] /= np.linalg.norm(qq[3:])
